@@ -439,7 +439,10 @@ class ColorValue(Value):
                             raw.append(int(255 * item.value.value / 100))
                         check += 'P'
 
-                if HSL:
+                if HSL and len(raw) < 3:
+                    # e.g. cut off by the end of the sheet, reported below
+                    rgba = raw
+                elif HSL:
                     # convert to rgb
                     # h is 360 based (circle)
                     h, s, l_ = raw[0] / 360.0, raw[1], raw[2]
